@@ -46,6 +46,17 @@ Proof.
   rewrite Z.mul_comm. apply Z.div_mul. lia.
 Qed.
 
+(* the `n_ck -= n_ck % k` line subtracts 0 in every reachable state (n_ck = C(n-1,k-1)) *)
+Lemma mod_line_noop : forall n k', 1 <= n ->
+  (Cz (n - 1) k' * (n - Z.of_nat (S k'))) mod Z.of_nat (S k') = 0.
+Proof.
+  intros n k' Hn.
+  pose proof (Cz_down (n - 1) k' ltac:(lia)) as H.
+  replace (Cz (n - 1) k' * (n - Z.of_nat (S k'))) with (Cz (n - 1) (S k') * Z.of_nat (S k')).
+  - apply Z.mod_mul. lia.
+  - rewrite (Z.mul_comm (Cz (n - 1) (S k'))). rewrite <- H. rewrite Z.mul_comm. f_equal. lia.
+Qed.
+
 Lemma inner_spec : forall fuel index k' B n,
   1 <= n -> n <= Z.of_nat fuel ->
   B <= index < B + Cz n (S k') ->
